@@ -18,6 +18,7 @@ package peers
 //@ memo Peer.id idMemo
 
 //@ func (peerSet *PeerSet) Len() int
+//@   safety on
 //@   requires peerSet != nil
 //@   modifies nothing
 //@   ensures[len] ret0 == len(peerSet.ByPubKey) && ret0 >= 0
@@ -72,6 +73,7 @@ package peers
 //@ ghost func (ps *PeerSet) WF() bool { return ps.ByPubKey != nil && ps.ByID != nil && len(ps.ByPubKey) <= len(ps.Peers) && len(ps.Peers) < 2147483648 && (forall i int :: 0 <= i && i < len(ps.Peers) ==> ps.Peers[i] != nil && __allocated(ps.Peers[i]) && __in(KeyOf(ps.Peers[i]), ps.ByPubKey)) && (forall k string :: __in(k, ps.ByPubKey) ==> ps.ByPubKey[k] != nil && __allocated(ps.ByPubKey[k]) && KeyOf(ps.ByPubKey[k]) == k && (exists i int :: 0 <= i && i < len(ps.Peers) && ps.Peers[i] == ps.ByPubKey[k])) }
 
 //@ func (p *Peer) PubKeyString() string
+//@   safety on
 //@   requires p != nil
 //@   modifies nothing
 //@   ensures[def] ret0 == KeyOf(p)
@@ -89,6 +91,7 @@ package peers
 //@   ensures[def]  ret0 == keys.KeyID(common.KeyBytesOf(p.PubKeyHex)) || (ret0 == 0 && keys.KeyID(common.KeyBytesOf(p.PubKeyHex)) == 0)
 
 //@ func (peerSet *PeerSet) initMaps()
+//@   safety on
 //@   requires peerSet != nil && len(peerSet.Peers) < 2147483648 && (forall i int :: 0 <= i && i < len(peerSet.Peers) ==> PeerOK(peerSet.Peers[i]))
 //@   requires[memo-empty] peerSet.superMajority == nil && peerSet.trustCount == nil && len(peerSet.hash) == 0
 //@   modifies peerSet.ByPubKey, peerSet.ByID
@@ -99,6 +102,7 @@ package peers
 //@   loop 1 invariant[back]  forall k string :: __in(k, peerSet.ByPubKey) ==> peerSet.ByPubKey[k] != nil && __allocated(peerSet.ByPubKey[k]) && KeyOf(peerSet.ByPubKey[k]) == k && (exists i int :: 0 <= i && i < __idx() && peerSet.Peers[i] == peerSet.ByPubKey[k])
 
 //@ func NewPeerSet(peers []*Peer) *PeerSet
+//@   safety on
 //@   requires len(peers) < 2147483648 && (forall i int :: 0 <= i && i < len(peers) ==> PeerOK(peers[i]))
 //@   modifies nothing
 //@   ensures[fresh] ret0 != nil && __fresh(ret0) && __eq(ret0.Peers, peers)
@@ -114,6 +118,7 @@ package peers
 // what keeps the memoised thresholds valid for the maps they were computed from.
 
 //@ func (peerSet *PeerSet) WithNewPeer(peer *Peer) *PeerSet
+//@   safety on
 //@   requires peerSet != nil && peerSet.WF() && peer != nil && len(peerSet.Peers) < 2147483647
 //@   modifies nothing
 //@   ensures[fresh]  ret0 != nil && __fresh(ret0) && ret0.WF()
@@ -121,6 +126,7 @@ package peers
 //@   ensures[kept]   __eq(peerSet.Peers, old(peerSet.Peers))
 
 //@ func (peerSet *PeerSet) WithRemovedPeer(peer *Peer) *PeerSet
+//@   safety on
 //@   requires peerSet != nil && peerSet.WF() && peer != nil
 //@   modifies nothing
 //@   ensures[fresh]   ret0 != nil && __fresh(ret0) && ret0.WF()
@@ -130,6 +136,7 @@ package peers
 //@   loop 1 invariant[filter] len(peers) <= __idx() && !(peers == nil) && (forall i int :: 0 <= i && i < len(peers) ==> peers[i] != nil && __allocated(peers[i]) && peers[i].PubKeyHex != peer.PubKeyHex)
 
 //@ func (peerSet *PeerSet) Hex() string
+//@   safety on
 //@   requires peerSet != nil
 //@   modifies nothing
 //@   ensures[def] ret0 == common.Enc(PSHashOf(peerSet.Peers))
